@@ -19,3 +19,11 @@ add("C04", "linear-scan overlap oracle over exhaustively enumerated (start,end) 
     "scan over the bin list and with the dense reference matrix; a probe on region_to_extent asserts the "
     "extent never leaves the chromosome. Exhaustive for small chromosomes, edge-biased sampling above.",
     "DESIGN.md section 4 C04")
+add("C03", "dense reference-matrix oracle over exhaustively enumerated windows; tiling probes on get_spans / FillLower sub-boxes",
+    "For every generated matrix (both storage modes) every window in [0,n]^4 up to the tier bound is queried through "
+    "the real engine in dense, sparse and pixel form for chunk sizes 1..>nnz and compared with the slice of a dense "
+    "matrix built from the generated pixels (sparse results also for repeated coordinates, pixel results for exact "
+    "storage order and row ids); slice spellings and store forms go through Cooler.matrix. Probes assert that row "
+    "spans cover all stored rows and that the fill-lower sub-boxes tile the query box. Exhaustive for n within the "
+    "bound, diagonal-biased sampling above it.",
+    "DESIGN.md section 4 C03")
